@@ -3217,6 +3217,9 @@ class Choice(Set):
         """
         oldIdx = self._currentIdx
         Set.setComponentByPosition(self, idx, value, verifyConstraints, matchTags, matchConstraints)
+        if idx < 0:
+            # a position counted from the end, as the assignment took it
+            idx += len(self._componentValues)
         self._currentIdx = idx
         if oldIdx is not None and oldIdx != idx:
             self._componentValues[oldIdx] = noValue
